@@ -650,6 +650,7 @@ func first(a, _ []byte) []byte { return a }
 //@   ensures[wf] WF1_alpha(t)
 //@   ensures[size] t.size == old(t.size) - ite(result, 1, 0)
 //@   ensures[noop_frame] implies(!result, frame())
+//@   pathkey ret
 //@   ensures[arg_bytes_unchanged] sameBytes(key, 0, blen(key.obj))
 //@   loop 1 (depth)
 //@     invariant 0 <= depth && depth <= len(keyS)
